@@ -53,6 +53,7 @@ Proof.
   - destruct (get sh d n); inversion Hs; subst; auto.
   - inversion Hs; subst. now apply set_entry_nonnone.
   - destruct (file_of cfg d n) as [fv|]; [|inversion Hs; subst; auto].
+    destruct (file_bad cfg d n); [inversion Hs; subst; auto|].
     pose proof (set_entry_nonnone sh d n (Some fv) d0 n0 Hb) as Hk.
     destruct (set_entry sh d n (Some fv)) as [sh1 [r1|]]; inversion Hs; subst; auto.
   - destruct r0; inversion Hs; subst; auto.
@@ -155,7 +156,8 @@ Proof.
   - (* PChecked *) injection Hs as <- <- <-. cbn [info].
     destruct (set_entry_rest sh d n None) as [H1 H2]. apply LT_mark; auto. apply set_entry_there.
   - (* PMarked *) destruct (file_of cfg d n) as [fv|].
-    + destruct (set_entry_rest sh d n (Some fv)) as [H1 H2].
+    + destruct (file_bad cfg d n); [injection Hs as <- <- <-; cbn [info]; apply LT_parse; auto|].
+      destruct (set_entry_rest sh d n (Some fv)) as [H1 H2].
       destruct (set_entry sh d n (Some fv)) as [sh1 [r1|]]; injection Hs as <- <- <-; cbn [info fst] in *;
         (apply LT_parse; cbn; [assumption | now rewrite H2]).
     + injection Hs as <- <- <-. cbn [info]. apply LT_parse; auto.
